@@ -98,6 +98,9 @@ def run(ctx: Ctx) -> None:
     cases += exhaustive(ctx, 1 if ctx.tier == "thorough" else 8)
     g.check_cases(ctx, "C05", cases)
 
+    from . import datapath  # full-stack stage: the same property through the real sourcing -> resampling -> formula stack
+    datapath.run_stage(ctx, {"C05-value"}, n_quick=40, n_thorough=600)
+
 
 def replay(ctx: Ctx, data: dict) -> None:
     python_flags()
